@@ -28,7 +28,7 @@ P = {
          "bytes(e(aP1,bP2)) == bytes(g^(ab)) for every (a,b) of the scalar alphabet (0, 1, 2, r-1, lambda, long runs, ...) in three representations per side through pairing, fast_pairing and G2Prepared::pairing; e(P1,P2)^(ab) == e(aP1,bP2), g^(r-1)*g == 1, additivity in both arguments with library-computed sums of mixed representatives, every identity representative (including P - P and new(x,y,0)) against every value, non-degeneracy.",
          "Decided through discrete logs (every group element is a multiple of the generator); g is pinned by the published vectors. Enumerated alphabet only.",
          "DESIGN.md 5 (C01)"),
- "C02": (True, GRID + "; K2 x K2 direct textbook pairings, published vectors",
+ "C02": (True, GRID + "; K2 x K2 direct textbook pairings, one operand rescaled by every special field value, published vectors",
          "For every (a,b) the reference model computes a*P1, b*P2 and the R-ate pairing by the textbook algorithm (no discrete-log shortcut, nothing from the library enters the oracle); the library's 384 bytes must be identical for three representatives per side and all three entry points; the standard's three published values are reproduced through every entry point.",
          "Enumerated scalar alphabet only. The textbook implementation is bound to the standard by its published vectors.",
          "DESIGN.md 5 (C02), Appendix A"),
@@ -64,7 +64,7 @@ P = {
          "Six decoders and Fq2::from_slice on the BYTES alphabet; the small dimensions are covered completely (all lengths, all prefix bytes, all bit positions; thorough: all two-bit flips of two points). Oracle: reference decoder (exact length/prefix, coordinates < q, curve equation, r*P = O by reference scalar multiplication); accepted inputs must denote the reference point and re-encode to the input; no panic; the whole corpus runs in the release build and in the dbg build (debug assertions + overflow checks).",
          "Which Err variant comes back is unconstrained. Enumerated corpus only. Trusted: rustc, num-bigint, reference model.",
          "DESIGN.md 5 (C08)"),
- "C09": (True, GRID + "; subgroup / twist / small-order / sum points and near misses through every validating entry point",
+ "C09": (True, GRID + "; subgroup / twist / small-order / sum points and near misses through every validating entry point; every ordered pair of validating calls on one thread (hidden state)",
          "AffineG1::new, AffineG2::new and all decoders on subgroup points, near misses, points of other curves, the first twist points of a fixed enumeration, their cofactor-cleared multiples, multiples of order dividing 13, 1621, 13*1621, and subgroup + small-order sums; oracle = curve equation and r*P = O with big-scalar reference multiplication; the twist order r(2q-r) is asserted for every twist point.",
          "Enumerated candidates only. Trusted: rustc, num-bigint, reference model.",
          "DESIGN.md 5 (C09)"),
